@@ -3,9 +3,16 @@
 -/
 import Xandikos.Http.Multiget
 import Xandikos.Py.UrlProofs
+import Xandikos.Tie.HrefEq
 
 namespace Xandikos.Theorems.C17
 open Xandikos Xandikos.Http Xandikos.Store Xandikos.Py
+
+/-- **the code is the model**: `webdav.href_to_path`, as translated from /repo on this run, is
+    the `hrefToPathChars` the multiget theorems below are about -/
+theorem code_is_model_href_to_path (script href : List Char) :
+    Generated.href_to_path script href = hrefToPathChars (Path.rstripSlash script) href :=
+  Tie.href_to_path_eq script href
 
 /-! ### `dict.fromkeys` -/
 
